@@ -34,7 +34,7 @@ fn flat(width: u32) -> Vec<Reg> {
     (1..=width).map(|t| Reg::Sys { tag: t, name: format!("s{}", t), deps: vec![], reads: vec![], writes: vec![100 + t], time: 3, kind: SysKind::Dynamic }).collect()
 }
 
-/// cfg: user | default | batch | async ; returns "arrived=<max simultaneously inside>;timeout=<0|1>;ok=<0|1>" per repetition
+/// cfg: user | default | batch | async | foreign ; returns "arrived=<max simultaneously inside>;timeout=<0|1>;ok=<0|1>" per repetition
 pub fn observe(cfg: &str, width: u32, pool_size: usize, reps: u32, limit_ms: u64) -> String {
     let rec = Recorder::new(MapMode::B);
     rec.set_caller();
@@ -56,6 +56,22 @@ pub fn observe(cfg: &str, width: u32, pool_size: usize, reps: u32, limit_ms: u64
         for _ in 0..reps {
             rv.reset(); *rv.max_seen.lock().unwrap() = 0;
             let r = catch_unwind(AssertUnwindSafe(|| { ad.dispatch(); ad.wait(); }));
+            res.push(format!("arrived={}:timeout={}:ok={}", *rv.max_seen.lock().unwrap(), *rv.timed_out.lock().unwrap() as u8, r.is_ok() as u8));
+            if *rv.timed_out.lock().unwrap() { break; }
+        }
+    } else if cfg == "foreign" {
+        // the dispatcher has its own pool, but dispatch is called from the only worker of ANOTHER rayon pool
+        // (a system of an outer dispatcher driving a nested dispatcher, or user code inside `install` / `spawn`)
+        let mut d = match builder.build().try_into_sendable() { Ok(d) => d, Err(_) => return "builderr".into() };
+        let mut world = make_world(&regs, MapMode::B);
+        let _ = catch_unwind(AssertUnwindSafe(|| d.setup(&mut world)));
+        let _ = rec.take();
+        rec.set_sched(rv.clone());
+        let outer = rayon::ThreadPoolBuilder::new().num_threads(1).build().unwrap();
+        for _ in 0..reps {
+            rv.reset(); *rv.max_seen.lock().unwrap() = 0;
+            let (dr, wr) = (&mut d, &world);
+            let r = catch_unwind(AssertUnwindSafe(|| outer.install(move || dr.dispatch(wr))));
             res.push(format!("arrived={}:timeout={}:ok={}", *rv.max_seen.lock().unwrap(), *rv.timed_out.lock().unwrap() as u8, r.is_ok() as u8));
             if *rv.timed_out.lock().unwrap() { break; }
         }
